@@ -273,7 +273,7 @@ class Env(object):
             if self.policy.lazy_start and self.defers < self.policy.lazy_start and (self.rerun_done or not self.policy.lazy_after_rerun):
                 # relaxed A2: the provider may process another event before it starts an offered
                 # task; the conductor keeps offering it until it is started
-                if self.ch.flag("defer%d:%s/%d" % (self.defers, t["id"], t["route"])):
+                if self.ch.flag("defer%d:%s/%d@%d" % (self.defers, t["id"], t["route"], len(self.offer_log))):
                     self.defers += 1
                     deferred.append(t)
                     self.log.append("~%s" % t["id"])
